@@ -162,6 +162,7 @@ func runPhase(t *testing.T, sc *Scenario, tasks [][]Call, faults, trivial bool, 
 			if sc.CustomNF {
 				nf, mna = customNotFound, customMethodNotAllowed
 			}
+			typedLabel, _ = tp.Label.(func(context.Context, string, string, func()) string)
 			th, thCheck := typedHandler(tp.Impls, sc.SharedResp)
 			cannedCheck = thCheck
 			h, cl, whc, err := tp.New(sc.Prefix, th, typedNewError, typedFill, typedSecSaw, tr, SimErrorHandler, nf, mna, typedMiddleware, secondMiddleware)
